@@ -9,7 +9,7 @@ for d in sorted(glob.glob(root + '/*/')):
     res = m['result']
     if m.get('superseded'):
         sup.append(name)
-    elif 'caught by' not in res:
+    elif 'caught' not in res:
         missed.append(name)
     rows.append('| %s | %s | %s | %s |' % (name, m['property'], m['needs_to_manifest'].replace('|', '/'), res.replace('|', '/')))
 n = len(rows)
